@@ -1,7 +1,8 @@
 ---------------------------- MODULE InnovParInd ----------------------------
 (***************************************************************************)
 (* C16, unbounded: the innovation-registry protocol of InnovPar.tla with   *)
-(* an INDUCTIVE INVARIANT, checked by Apalache (see bin/pipe_ind.py, I16). *)
+(* an INDUCTIVE INVARIANT, checked by Apalache (bin/pipe_ind.py, suite     *)
+(* I16; `bin/check --property I16 --tier quick|thorough`).                 *)
 (*                                                                         *)
 (* The actions are those of InnovPar.tla, one per primitive call of the    *)
 (* code (Lookup = Population.Innovations() + scan, IssueNode / IssueInn1 / *)
@@ -12,48 +13,61 @@
 (*     of the constant Prog, so that the obligations quantify over ALL     *)
 (*     programs: prog[t] is a function on 1..MaxLen of which the first     *)
 (*     plen[t] entries are the program of thread t;                        *)
+(*   - Lookup is written with the predicates IsFirstHit / NoHit instead of *)
+(*     `h == FirstHit(m)` with its CHOOSE (same meaning: FirstHitAgrees,   *)
+(*     checked by TLC on the reachable states of the cross-check);         *)
 (*   - the observation-only variable sched is dropped; accesses is kept as *)
-(*     the set of `locked` flags of the accesses made so far.              *)
+(*     the set of `locked` flags of the accesses made so far;              *)
+(*   - one HISTORY variable is added, src: src[t][i] is the index of the   *)
+(*     registry record that output out[t][i] was copied from (a hit) or    *)
+(*     stored as (a miss).  No action reads it.  It replaces an            *)
+(*     existential witness in the invariant (see IndInv).                  *)
 (*                                                                         *)
-(* WHAT IS PROVED.  Three obligations, each one SMT query of Apalache:     *)
+(* WHAT IS PROVED.  Three obligations, SMT queries of Apalache:            *)
 (*   (O1) Init => IndInv                                                   *)
-(*   (O2) IndInv /\ Next => IndInv'                                        *)
+(*   (O2) IndInv /\ Next => IndInv'     (one run per conjunct of IndInv')  *)
 (*   (O3) IndInv => Safety                                                 *)
 (* Safety = OneMeaningPerNumber /\ Fresh /\ NoNumberIssuedTwice /\         *)
 (* NodeIdsOneSplit (/\ RaceFree when LockedRead), the invariants that TLC  *)
-(* checks on InnovPar.tla for 2-3 threads x <= 2 mutations.  (O1)-(O3)     *)
-(* give them in EVERY reachable state of EVERY behaviour: the inductive    *)
-(* step does not mention reachability, so the NUMBER OF STEPS and the      *)
-(* INTERLEAVING are unbounded, the counters nInn / nNode and all issued    *)
-(* numbers are unbounded integers, and the programs are arbitrary.         *)
+(* checks on InnovPar.tla for 2-3 threads x <= 2 mutations, literally as   *)
+(* they are written there.  (O1)-(O3) give them in EVERY reachable state   *)
+(* of EVERY behaviour: the inductive step does not mention reachability,   *)
+(* so the NUMBER OF STEPS and the INTERLEAVING are unbounded, the counters *)
+(* nInn / nNode, their initial values and all issued numbers are unbounded *)
+(* integers, and the programs are arbitrary.                               *)
 (*                                                                         *)
-(* WHAT REMAINS BOUNDED (parameters of the SMT query):                     *)
+(* WHAT REMAINS BOUNDED (parameters of the SMT queries):                   *)
 (*   - the carrier sets given as CONSTANTS: Threads (which threads exist), *)
 (*     NodeIds (the node ids requests may mention), GeneNos (the numbers   *)
 (*     of the genes that may be split), MaxLen (the maximal length of a    *)
 (*     program).  The check is for the given sets, e.g. 4 threads x <= 3   *)
-(*     mutations over 3 node ids and 2 splittable genes; every program     *)
+(*     mutations over 3 node ids and 2 splittable genes; EVERY program     *)
 (*     over them is covered.                                               *)
-(*   - the LENGTH OF THE REGISTRY in the pre-state of (O2)/(O3): Apalache  *)
-(*     needs a static bound to build an arbitrary sequence (Gen(N) in      *)
-(*     IndInit, N = 12 below, > |Threads| * MaxLen for the shipped         *)
-(*     configurations, and every reachable registry has at most            *)
-(*     |Threads| * MaxLen records: one per fresh output).  IndInv itself   *)
-(*     does not mention N.                                                 *)
+(*   - the LENGTH OF THE REGISTRY in the pre-state of (O2) / (O3):         *)
+(*     Apalache needs a static bound to build an arbitrary sequence        *)
+(*     (Gen(RegBound) in IndInit).  The shipped configurations take        *)
+(*     RegBound = |Threads| * MaxLen; no reachable registry is longer (one *)
+(*     record per fresh output - FreshOwnRecord below), but this counting  *)
+(*     argument is NOT part of what Apalache checks.  IndInv itself does   *)
+(*     not mention RegBound.                                               *)
 (*                                                                         *)
-(* ASSUMPTION ON PROGRAMS (ProgConsistent; what the code guarantees        *)
-(* within one epoch, all genomes being read against one population):       *)
+(* ASSUMPTION ON PROGRAMS (what the code guarantees within one epoch, all  *)
+(* genomes being read against one parent population in which a number      *)
+(* denotes one connection - C03):                                          *)
 (*   - a request to split a gene names the gene by its innovation number   *)
 (*     `old`; two requests to split the same gene agree on src, dst, rec   *)
-(*     (one number denotes one connection: C03 for the parent generation); *)
+(*     (ProgConsistent).  Used in the equivalent form ProgConforms: there  *)
+(*     is a map gene : number -> connection that all split requests        *)
+(*     follow (FormsAgree: equivalence, evaluated by TLC on every program  *)
+(*     over small carrier sets);                                           *)
 (*   - a link request is identified by <<src, dst, rec>> (its `old` is 0). *)
-(* Without it the protocol as specified (and as coded) would hand the      *)
-(* numbers recorded for one split to a request for another connection      *)
-(* (Match compares src, dst, old only) - this is the premise, not a        *)
-(* weakening of the conclusion.                                            *)
+(* Without it the protocol as specified (and as coded) hands the numbers   *)
+(* recorded for one split to a request for another connection (Match       *)
+(* compares src, dst, old only) - this is the premise, not a weakening of  *)
+(* the conclusion.                                                         *)
 (*                                                                         *)
-(* FirstHit is kept as in InnovPar.tla (the least matching index).  The    *)
-(* invariant does not use the order: it holds for ANY hit.                 *)
+(* The order of the registry matters only for FirstHit.  The invariant     *)
+(* does not use it: (O2) and (O3) go through for ANY matching record.      *)
 (***************************************************************************)
 EXTENDS Integers, Sequences, FiniteSets, Apalache
 
@@ -63,6 +77,7 @@ EXTENDS Integers, Sequences, FiniteSets, Apalache
   @typeAlias: outrec = { m: $req, node: Int, inn: Int, inn2: Int, reused: Bool };
   @typeAlias: tmprec = { node: Int, inn: Int, inn2: Int };
   @typeAlias: gene = <<Int, Int, Int, Bool>>;
+  @typeAlias: conn = { src: Int, dst: Int, rec: Bool };
 *)
 InnovParInd_aliases == TRUE
 
@@ -81,12 +96,16 @@ CONSTANTS
     NNode0,
     \* @type: Bool;
     LockedRead,
+    \* @type: Int;
+    RegBound,     \* Apalache only: the registry of the pre-state of (O2), (O3) has at most RegBound records
     \* @type: Set(Bool);
     RecFlags      \* the recurrent flags requests may carry (BOOLEAN; a singleton only to keep the TLC cross-check small)
 
 ASSUME MaxLen >= 1 /\ 0 \notin GeneNos /\ NInn0 >= 0 /\ NNode0 >= 0 /\ RecFlags \subseteq BOOLEAN
 
 VARIABLES
+    \* @type: Int -> $conn;
+    gene,         \* never changes: gene[g] is the connection that gene number g denotes in the parent generation
     \* @type: Int -> (Int -> $req);
     prog,         \* never changes: prog[t][i] for i <= plen[t] is the i-th request of thread t
     \* @type: Int -> Int;
@@ -105,22 +124,44 @@ VARIABLES
     tmp,
     \* @type: Int -> Seq($outrec);
     out,
+    \* @type: Int -> Seq(Int);
+    src,          \* history: the registry index behind every output (never read by an action)
     \* @type: Set(Bool);
     accesses
 
-vars == <<prog, plen, reg, nInn, nNode, pc, idx, tmp, out, accesses>>
+vars == <<gene, prog, plen, reg, nInn, nNode, pc, idx, tmp, out, src, accesses>>
 
 PCs == {"lookup", "node", "inn1", "inn2", "store", "done"}
 Idxs == 1..MaxLen
+Slots == Threads \X Idxs
 LinkReqs == [kind : {"link"}, src : NodeIds, dst : NodeIds, rec : RecFlags, old : {0}]
 NodeReqs == [kind : {"node"}, src : NodeIds, dst : NodeIds, rec : RecFlags, old : GeneNos]
 Reqs == LinkReqs \cup NodeReqs
+Conns == [src : NodeIds, dst : NodeIds, rec : RecFlags]
 
-(* the assumption on programs (see the header) *)
+\* m \in Reqs, field by field (cheaper for the SMT solver than membership in the enumerated set)
+\* @type: $req => Bool;
+ReqOK(m) == /\ m.kind \in {"link", "node"} /\ m.src \in NodeIds /\ m.dst \in NodeIds /\ m.rec \in RecFlags
+            /\ IF m.kind = "link" THEN m.old = 0 ELSE m.old \in GeneNos
+\* a = b for requests, field by field
+\* @type: ($req, $req) => Bool;
+SameReq(a, b) == a.kind = b.kind /\ a.src = b.src /\ a.dst = b.dst /\ a.rec = b.rec /\ a.old = b.old
+
+(* the assumption on programs (see the header): every request to split gene number g names the connection gene[g] *)
+\* @type: $req => Bool;
+Conforms(m) == m.kind = "node" => (m.src = gene[m.old].src /\ m.dst = gene[m.old].dst /\ m.rec = gene[m.old].rec)
+ProgConforms == \A t \in Threads : \A i \in Idxs : i <= plen[t] => Conforms(prog[t][i])
+(* the same assumption without the map: any two requests to split the same gene agree.  The two forms are equivalent  *)
+(* (given the pairwise form, let gene[g] be the connection of any request that splits g).  FormsAgree is evaluated by *)
+(* TLC for every program over small carrier sets (InnovParInd_forms.cfg: INIT InitAnyProgram, NEXT Stutter).          *)
 ProgConsistent ==
     \A t \in Threads, u \in Threads : \A i \in Idxs, j \in Idxs :
         (i <= plen[t] /\ j <= plen[u] /\ prog[t][i].kind = "node" /\ prog[u][j].kind = "node"
-           /\ prog[t][i].old = prog[u][j].old) => prog[t][i] = prog[u][j]
+           /\ prog[t][i].old = prog[u][j].old)
+        => (prog[t][i].src = prog[u][j].src /\ prog[t][i].dst = prog[u][j].dst /\ prog[t][i].rec = prog[u][j].rec)
+FormsAgree == ProgConsistent <=> \E g \in [GeneNos -> Conns] : \A t \in Threads : \A i \in Idxs :
+                  (i <= plen[t] /\ prog[t][i].kind = "node") =>
+                      (prog[t][i].src = g[prog[t][i].old].src /\ prog[t][i].dst = g[prog[t][i].old].dst /\ prog[t][i].rec = g[prog[t][i].old].rec)
 
 (* ------------------------------ the protocol, as in InnovPar.tla ------------------------------ *)
 \* @type: Int => $req;
@@ -131,47 +172,65 @@ Match(r, m) == IF m.kind = "node" THEN r.kind = "node" /\ r.src = m.src /\ r.dst
 \* @type: $req => Int;
 FirstHit(m) == LET S == { i \in DOMAIN reg : Match(reg[i], m) } IN
                IF S = {} THEN 0 ELSE CHOOSE i \in S : \A j \in S : i <= j
+\* FirstHit(m) = h # 0 iff IsFirstHit(h, m); FirstHit(m) = 0 iff NoHit(m).  Lookup is written with these two predicates
+\* (the SMT solver need not show that a finite set has a least element).
+\* @type: (Int, $req) => Bool;
+IsFirstHit(h, m) == h \in DOMAIN reg /\ Match(reg[h], m) /\ \A j \in DOMAIN reg : Match(reg[j], m) => h <= j
+\* @type: $req => Bool;
+NoHit(m) == \A j \in DOMAIN reg : ~Match(reg[j], m)
+FirstHitAgrees == \A t \in Threads : pc[t] = "lookup" =>
+    LET h == FirstHit(Cur(t)) IN IF h = 0 THEN NoHit(Cur(t)) ELSE IsFirstHit(h, Cur(t))
 Advance(t) == IF idx[t] < plen[t] THEN idx' = [idx EXCEPT ![t] = @ + 1] /\ pc' = [pc EXCEPT ![t] = "lookup"]
               ELSE idx' = idx /\ pc' = [pc EXCEPT ![t] = "done"]
 Empty == [node |-> 0, inn |-> 0, inn2 |-> 0]
 
-Init == /\ prog \in [Threads -> [Idxs -> Reqs]] /\ plen \in [Threads -> 0..MaxLen] /\ ProgConsistent
+Init == /\ gene \in [GeneNos -> Conns] /\ prog \in [Threads -> [Idxs -> Reqs]] /\ plen \in [Threads -> 0..MaxLen] /\ ProgConforms
         /\ reg = <<>> /\ nInn = NInn0 /\ nNode = NNode0
         /\ pc = [t \in Threads |-> IF plen[t] = 0 THEN "done" ELSE "lookup"] /\ idx = [t \in Threads |-> 1]
-        /\ tmp = [t \in Threads |-> Empty] /\ out = [t \in Threads |-> <<>>] /\ accesses = {}
+        /\ tmp = [t \in Threads |-> Empty] /\ out = [t \in Threads |-> <<>>] /\ src = [t \in Threads |-> <<>>] /\ accesses = {}
 
 Lookup(t) ==
     /\ pc[t] = "lookup"
     /\ accesses' = accesses \cup {LockedRead}
-    /\ LET m == Cur(t)  h == FirstHit(m) IN
-       IF h # 0
-       THEN /\ out' = [out EXCEPT ![t] = Append(@, [m |-> m, node |-> reg[h].node, inn |-> reg[h].inn, inn2 |-> reg[h].inn2, reused |-> TRUE])]
+    /\ LET m == Cur(t) IN
+       \/ \E h \in DOMAIN reg :
+            /\ IsFirstHit(h, m)
+            /\ out' = [out EXCEPT ![t] = Append(@, [m |-> m, node |-> reg[h].node, inn |-> reg[h].inn, inn2 |-> reg[h].inn2, reused |-> TRUE])]
+            /\ src' = [src EXCEPT ![t] = Append(@, h)]
             /\ Advance(t) /\ UNCHANGED tmp
-       ELSE /\ pc' = [pc EXCEPT ![t] = IF m.kind = "node" THEN "node" ELSE "inn1"]
-            /\ tmp' = [tmp EXCEPT ![t] = Empty] /\ UNCHANGED <<out, idx>>
-    /\ UNCHANGED <<prog, plen, reg, nInn, nNode>>
+       \/ /\ NoHit(m)
+          /\ pc' = [pc EXCEPT ![t] = IF m.kind = "node" THEN "node" ELSE "inn1"]
+          /\ tmp' = [tmp EXCEPT ![t] = Empty] /\ UNCHANGED <<out, src, idx>>
+    /\ UNCHANGED <<gene, prog, plen, reg, nInn, nNode>>
 IssueNode(t) ==
     /\ pc[t] = "node"
     /\ nNode' = nNode + 1 /\ tmp' = [tmp EXCEPT ![t].node = nNode + 1] /\ pc' = [pc EXCEPT ![t] = "inn1"]
-    /\ UNCHANGED <<prog, plen, reg, nInn, idx, out, accesses>>
+    /\ UNCHANGED <<gene, prog, plen, reg, nInn, idx, out, src, accesses>>
 IssueInn1(t) ==
     /\ pc[t] = "inn1"
     /\ nInn' = nInn + 1 /\ tmp' = [tmp EXCEPT ![t].inn = nInn + 1]
     /\ pc' = [pc EXCEPT ![t] = IF Cur(t).kind = "node" THEN "inn2" ELSE "store"]
-    /\ UNCHANGED <<prog, plen, reg, nNode, idx, out, accesses>>
+    /\ UNCHANGED <<gene, prog, plen, reg, nNode, idx, out, src, accesses>>
 IssueInn2(t) ==
     /\ pc[t] = "inn2"
     /\ nInn' = nInn + 1 /\ tmp' = [tmp EXCEPT ![t].inn2 = nInn + 1] /\ pc' = [pc EXCEPT ![t] = "store"]
-    /\ UNCHANGED <<prog, plen, reg, nNode, idx, out, accesses>>
+    /\ UNCHANGED <<gene, prog, plen, reg, nNode, idx, out, src, accesses>>
 Store(t) ==
     /\ pc[t] = "store"
     /\ LET m == Cur(t) IN
        /\ reg' = Append(reg, [kind |-> m.kind, src |-> m.src, dst |-> m.dst, rec |-> m.rec, old |-> m.old,
                               node |-> tmp[t].node, inn |-> tmp[t].inn, inn2 |-> tmp[t].inn2])
        /\ out' = [out EXCEPT ![t] = Append(@, [m |-> m, node |-> tmp[t].node, inn |-> tmp[t].inn, inn2 |-> tmp[t].inn2, reused |-> FALSE])]
+    /\ src' = [src EXCEPT ![t] = Append(@, Len(reg) + 1)]
     /\ accesses' = accesses \cup {TRUE}
-    /\ Advance(t) /\ UNCHANGED <<prog, plen, nInn, nNode, tmp>>
-Next == \E t \in Threads : Lookup(t) \/ IssueNode(t) \/ IssueInn1(t) \/ IssueInn2(t) \/ Store(t)
+    /\ Advance(t) /\ UNCHANGED <<gene, prog, plen, nInn, nNode, tmp>>
+\* one disjunct per primitive
+NextLookup == \E t \in Threads : Lookup(t)
+NextIssueNode == \E t \in Threads : IssueNode(t)
+NextIssueInn1 == \E t \in Threads : IssueInn1(t)
+NextIssueInn2 == \E t \in Threads : IssueInn2(t)
+NextStore == \E t \in Threads : Store(t)
+Next == NextLookup \/ NextIssueNode \/ NextIssueInn1 \/ NextIssueInn2 \/ NextStore
 Spec == Init /\ [][Next]_vars
 
 (* ------------------------------ the properties of InnovPar.tla ------------------------------ *)
@@ -192,78 +251,146 @@ Safety == OneMeaningPerNumber /\ Fresh /\ NoNumberIssuedTwice /\ NodeIdsOneSplit
 (* ------------------------------ the inductive invariant ------------------------------ *)
 (* (a) every variable is constrained *)
 TypeOK ==
-    /\ prog \in [Threads -> [Idxs -> Reqs]] /\ plen \in [Threads -> 0..MaxLen]
-    /\ \A k \in DOMAIN reg : /\ [kind |-> reg[k].kind, src |-> reg[k].src, dst |-> reg[k].dst, rec |-> reg[k].rec, old |-> reg[k].old] \in Reqs
-                             /\ reg[k].node \in Int /\ reg[k].inn \in Int /\ reg[k].inn2 \in Int
+    /\ gene \in [GeneNos -> Conns]
+    /\ DOMAIN prog = Threads /\ \A t \in Threads : DOMAIN prog[t] = Idxs /\ \A i \in Idxs : ReqOK(prog[t][i])
+    /\ plen \in [Threads -> 0..MaxLen]
     /\ nInn \in Int /\ nNode \in Int /\ nInn >= NInn0 /\ nNode >= NNode0
     /\ pc \in [Threads -> PCs] /\ idx \in [Threads -> Idxs]
     /\ DOMAIN tmp = Threads /\ \A t \in Threads : tmp[t].node \in Int /\ tmp[t].inn \in Int /\ tmp[t].inn2 \in Int
-    /\ DOMAIN out = Threads
+    /\ DOMAIN out = Threads /\ DOMAIN src = Threads
     /\ accesses \subseteq {LockedRead, TRUE}
+\* @type: $regrec => $req;
+ReqOf(r) == [kind |-> r.kind, src |-> r.src, dst |-> r.dst, rec |-> r.rec, old |-> r.old]
+\* registry records are well-typed requests of the same parent generation
+RegTyped == \A k \in DOMAIN reg : ReqOK(ReqOf(reg[k])) /\ Conforms(ReqOf(reg[k]))
 
 (* (b) control: where a thread is in its program; its outputs answer its requests in order *)
 Control == \A t \in Threads :
     /\ IF pc[t] = "done" THEN Len(out[t]) = plen[t] ELSE (idx[t] <= plen[t] /\ Len(out[t]) = idx[t] - 1)
-    /\ \A i \in DOMAIN out[t] : i \in Idxs /\ out[t][i].m = prog[t][i]
+    /\ Len(out[t]) <= MaxLen /\ Len(src[t]) = Len(out[t])
+    /\ \A i \in Idxs : i <= Len(out[t]) => SameReq(out[t][i].m, prog[t][i])
     /\ pc[t] \in {"node", "inn2"} => Cur(t).kind = "node"
 
-(* (c) who holds which number.  A number drawn from a counter is held by the SLOT <<thread, program index>> of the     *)
-(* request it was drawn for: in tmp while the request is being served, in the fresh output afterwards.                 *)
+(* (c) numbers that are still in tmp.  A number drawn from a counter is held in tmp until Store puts it into a registry *)
+(* record (and a fresh output).                                                                                         *)
 HoldsInn1(t) == pc[t] \in {"inn2", "store"}
 HoldsInn2(t) == pc[t] = "store" /\ Cur(t).kind = "node"
 HoldsNode(t) == pc[t] \in {"inn1", "inn2", "store"} /\ Cur(t).kind = "node"
 InFlight(t) == pc[t] \in {"node", "inn1", "inn2", "store"}
-\* numbers in tmp: issued ones lie in (initial, counter], the others are still 0 (Lookup cleared tmp on the miss)
+\* issued ones lie in (initial, counter], the others are still 0 (Lookup cleared tmp on the miss)
 TmpNumbers == \A t \in Threads : InFlight(t) =>
     /\ IF HoldsInn1(t) THEN (NInn0 < tmp[t].inn /\ tmp[t].inn <= nInn) ELSE tmp[t].inn = 0
     /\ IF HoldsInn2(t) THEN (NInn0 < tmp[t].inn2 /\ tmp[t].inn2 <= nInn) ELSE tmp[t].inn2 = 0
     /\ IF HoldsNode(t) THEN (NNode0 < tmp[t].node /\ tmp[t].node <= nNode) ELSE tmp[t].node = 0
-\* numbers in fresh outputs
-FreshOut(t, i) == i \in DOMAIN out[t] /\ ~out[t][i].reused
-OutNumbers == \A t \in Threads : \A i \in DOMAIN out[t] : ~out[t][i].reused =>
-    LET o == out[t][i] IN
-    /\ NInn0 < o.inn /\ o.inn <= nInn
-    /\ IF o.m.kind = "node" THEN (NInn0 < o.inn2 /\ o.inn2 <= nInn /\ NNode0 < o.node /\ o.node <= nNode)
-       ELSE (o.inn2 = 0 /\ o.node = 0)
-\* the innovation numbers held by slot <<t, i>>: s = 1 the first, s = 2 the second number
-InnLive(t, i, s) ==
-    \/ FreshOut(t, i) /\ (s = 1 \/ out[t][i].m.kind = "node")
-    \/ pc[t] # "done" /\ i = idx[t] /\ (IF s = 1 THEN HoldsInn1(t) ELSE HoldsInn2(t))
-InnVal(t, i, s) ==
-    IF i \in DOMAIN out[t] THEN (IF s = 1 THEN out[t][i].inn ELSE out[t][i].inn2)
-    ELSE (IF s = 1 THEN tmp[t].inn ELSE tmp[t].inn2)
-NodeLive(t, i) ==
-    \/ FreshOut(t, i) /\ out[t][i].m.kind = "node"
-    \/ pc[t] # "done" /\ i = idx[t] /\ HoldsNode(t)
-NodeVal(t, i) == IF i \in DOMAIN out[t] THEN out[t][i].node ELSE tmp[t].node
-\* numbers held by distinct slots are pairwise distinct
-Distinct ==
-    /\ \A t \in Threads, u \in Threads : \A i \in Idxs, j \in Idxs : \A s \in {1, 2}, r \in {1, 2} :
-          (InnLive(t, i, s) /\ InnLive(u, j, r) /\ (t # u \/ i # j \/ s # r)) => InnVal(t, i, s) # InnVal(u, j, r)
-    /\ \A t \in Threads, u \in Threads : \A i \in Idxs, j \in Idxs :
-          (NodeLive(t, i) /\ NodeLive(u, j) /\ (t # u \/ i # j)) => NodeVal(t, i) # NodeVal(u, j)
+\* numbers held in tmp by different threads, or in the two slots of one thread, are pairwise distinct
+TmpDistinct == \A t \in Threads, u \in Threads :
+    /\ (HoldsInn1(t) /\ HoldsInn2(u)) => tmp[t].inn # tmp[u].inn2
+    /\ t # u => /\ (HoldsInn1(t) /\ HoldsInn1(u)) => tmp[t].inn # tmp[u].inn
+                /\ (HoldsInn2(t) /\ HoldsInn2(u)) => tmp[t].inn2 # tmp[u].inn2
+                /\ (HoldsNode(t) /\ HoldsNode(u)) => tmp[t].node # tmp[u].node
 
-(* (d) the registry and the re-used outputs *)
+(* (d) numbers in the registry *)
+\* in (initial, counter], the two numbers of a split differ, the unused ones are 0
+RegNumbers == \A k \in DOMAIN reg :
+    /\ NInn0 < reg[k].inn /\ reg[k].inn <= nInn
+    /\ IF reg[k].kind = "node" THEN (NInn0 < reg[k].inn2 /\ reg[k].inn2 <= nInn /\ reg[k].inn2 # reg[k].inn
+                                     /\ NNode0 < reg[k].node /\ reg[k].node <= nNode)
+       ELSE (reg[k].inn2 = 0 /\ reg[k].node = 0)
+\* different records carry different numbers (every Store writes numbers that were drawn for it alone)
+RegDistinct == \A k \in DOMAIN reg, l \in DOMAIN reg : k # l =>
+    /\ reg[k].inn # reg[l].inn /\ reg[k].inn # reg[l].inn2
+    /\ (reg[k].kind = "node" /\ reg[l].kind = "node") => (reg[k].inn2 # reg[l].inn2 /\ reg[k].node # reg[l].node)
+\* a number still held in tmp is in no record
+TmpVsReg == \A t \in Threads : \A k \in DOMAIN reg :
+    /\ HoldsInn1(t) => (tmp[t].inn # reg[k].inn /\ tmp[t].inn # reg[k].inn2)
+    /\ HoldsInn2(t) => (tmp[t].inn2 # reg[k].inn /\ tmp[t].inn2 # reg[k].inn2)
+    /\ HoldsNode(t) => tmp[t].node # reg[k].node
+
+(* (e) the outputs: every output, fresh or re-used, is the registry record src[t][i] seen as an output *)
 \* @type: $outrec => $regrec;
 RecOf(o) == [kind |-> o.m.kind, src |-> o.m.src, dst |-> o.m.dst, rec |-> o.m.rec, old |-> o.m.old,
              node |-> o.node, inn |-> o.inn, inn2 |-> o.inn2]
-\* every registry record was stored together with a fresh output for the same request with the same numbers
-RegFromFresh == \A k \in DOMAIN reg : \E t \in Threads : \E i \in DOMAIN out[t] : ~out[t][i].reused /\ RecOf(out[t][i]) = reg[k]
-\* a re-used output carries the numbers of a registry record that matches its request
-ReusedFromReg == \A t \in Threads : \A i \in DOMAIN out[t] : out[t][i].reused =>
-    \E k \in DOMAIN reg : Match(reg[k], out[t][i].m) /\ reg[k].node = out[t][i].node /\ reg[k].inn = out[t][i].inn /\ reg[k].inn2 = out[t][i].inn2
+\* @type: ($regrec, $regrec) => Bool;
+SameRec(a, b) == /\ a.kind = b.kind /\ a.src = b.src /\ a.dst = b.dst /\ a.rec = b.rec /\ a.old = b.old
+                 /\ a.node = b.node /\ a.inn = b.inn /\ a.inn2 = b.inn2
+OutIsRecord == \A t \in Threads : \A i \in Idxs : i <= Len(out[t]) =>
+    /\ src[t][i] \in DOMAIN reg
+    /\ SameRec(RecOf(out[t][i]), reg[src[t][i]])
+\* different fresh outputs stored different records (so: numbers of different fresh outputs are pairwise distinct, and
+\* there are at most as many records as fresh outputs)
+FreshOwnRecord ==
+    LET fr == [x \in Slots |-> x[2] <= Len(out[x[1]]) /\ ~out[x[1]][x[2]].reused]  at == [x \in Slots |-> src[x[1]][x[2]]] IN
+    \A x \in Slots, y \in Slots : (fr[x] /\ fr[y] /\ x # y) => at[x] # at[y]
 
-IndInv == TypeOK /\ ProgConsistent /\ Control /\ TmpNumbers /\ OutNumbers /\ Distinct /\ RegFromFresh /\ ReusedFromReg
 
-(* an arbitrary state satisfying IndInv: Gen(N) is an arbitrary value of the variable's type in which every set, *)
-(* sequence and function domain has at most N elements                                                          *)
+(* (f) what (d) and (e) give for the outputs alone - the part of the invariant from which Safety follows (O3).  It is   *)
+(* implied by the conjuncts above, but deriving it for all pairs of outputs at once is hard for the solver, whereas a    *)
+(* step adds one output.                                                                                                 *)
+OutNumbers == \A t \in Threads : \A i \in Idxs : i <= Len(out[t]) =>
+    LET o == out[t][i] IN
+    /\ NInn0 < o.inn /\ o.inn <= nInn
+    /\ IF o.m.kind = "node" THEN (NInn0 < o.inn2 /\ o.inn2 <= nInn /\ o.inn2 # o.inn /\ NNode0 < o.node /\ o.node <= nNode)
+       ELSE (o.inn2 = 0 /\ o.node = 0)
+\* two outputs that share a number are for the same request and agree on all numbers; a first number is nobody's second
+\* @type: ($regrec, $regrec) => Bool;
+Compat(a, b) ==
+    /\ (a.inn = b.inn \/ (a.kind = "node" /\ b.kind = "node" /\ (a.inn2 = b.inn2 \/ a.node = b.node))) => SameRec(a, b)
+    /\ b.kind = "node" => a.inn # b.inn2
+OutCompat ==
+    LET oe == [x \in Slots |-> RecOf(out[x[1]][x[2]])]  on == [x \in Slots |-> x[2] <= Len(out[x[1]])]
+        fr == [x \in Slots |-> ~out[x[1]][x[2]].reused] IN
+    \A x \in Slots, y \in Slots : (on[x] /\ on[y]) =>
+        /\ Compat(oe[x], oe[y])
+        /\ (fr[x] /\ fr[y] /\ x # y) => oe[x].inn # oe[y].inn
+OutFacts == (\A t \in Threads : Len(out[t]) <= MaxLen) /\ OutNumbers /\ OutCompat /\ accesses \subseteq {LockedRead, TRUE}
+
+IndInv == /\ TypeOK /\ RegTyped /\ ProgConforms /\ Control /\ TmpNumbers /\ TmpDistinct
+          /\ RegNumbers /\ RegDistinct /\ TmpVsReg /\ OutIsRecord /\ FreshOwnRecord
+          /\ OutNumbers /\ OutCompat
+
+(* an arbitrary state satisfying IndInv.  Functions are built over the constant carrier sets from arbitrary components  *)
+(* (cheaper than Gen, which makes the domain symbolic); Gen(n) is an arbitrary sequence of at most n elements.          *)
 IndInit ==
-    /\ reg = Gen(12) /\ out = Gen(12) /\ tmp = Gen(12) /\ accesses = Gen(2)
-    /\ nInn = Gen(1) /\ nNode = Gen(1)
-    /\ prog \in [Threads -> [Idxs -> Reqs]] /\ plen \in [Threads -> 0..MaxLen]
+    /\ gene \in [GeneNos -> Conns] /\ plen \in [Threads -> 0..MaxLen]
+    /\ \E pk \in [Slots -> {"link", "node"}], ps \in [Slots -> NodeIds], pd \in [Slots -> NodeIds], pr \in [Slots -> RecFlags],
+          po \in [Slots -> GeneNos \cup {0}] :
+          prog = [t \in Threads |-> [i \in Idxs |-> [kind |-> pk[<<t, i>>], src |-> ps[<<t, i>>], dst |-> pd[<<t, i>>],
+                                                      rec |-> pr[<<t, i>>], old |-> po[<<t, i>>]]]]
     /\ pc \in [Threads -> PCs] /\ idx \in [Threads -> Idxs]
+    /\ nInn \in Int /\ nNode \in Int /\ accesses \in SUBSET BOOLEAN
+    /\ \E tn \in [Threads -> Int], ti \in [Threads -> Int], tj \in [Threads -> Int] :
+          tmp = [t \in Threads |-> [node |-> tn[t], inn |-> ti[t], inn2 |-> tj[t]]]
+    /\ \E on \in [Slots -> Int], oi \in [Slots -> Int], oj \in [Slots -> Int], ou \in [Slots -> BOOLEAN],
+          os \in [Slots -> Int], ol \in [Threads -> 0..MaxLen] :
+          /\ out = [t \in Threads |->
+                      FunAsSeq([i \in Idxs |-> [m |-> prog[t][i], node |-> on[<<t, i>>], inn |-> oi[<<t, i>>], inn2 |-> oj[<<t, i>>],
+                                                 reused |-> ou[<<t, i>>]]], ol[t], MaxLen)]
+          /\ src = [t \in Threads |-> FunAsSeq([i \in Idxs |-> os[<<t, i>>]], ol[t], MaxLen)]
+    /\ reg = Gen(RegBound)
     /\ IndInv
+
+(* (O3) is checked as OutFacts => Safety: OutFacts is a sub-conjunction of IndInv (its first and last conjunct are in  *)
+(* Control and TypeOK) and Safety reads out and accesses only.  An arbitrary state satisfying OutFacts:                 *)
+SafetyInit ==
+    /\ gene \in [GeneNos -> Conns] /\ plen \in [Threads -> 0..MaxLen] /\ prog \in [Threads -> [Idxs -> Reqs]]
+    /\ pc \in [Threads -> PCs] /\ idx \in [Threads -> Idxs] /\ tmp = [t \in Threads |-> Empty] /\ reg = <<>>
+    /\ nInn \in Int /\ nNode \in Int /\ accesses \in SUBSET BOOLEAN
+    /\ \E mk \in [Slots -> {"link", "node"}], ms \in [Slots -> Int], md \in [Slots -> Int], mr \in [Slots -> BOOLEAN], mo \in [Slots -> Int],
+          on \in [Slots -> Int], oi \in [Slots -> Int], oj \in [Slots -> Int], ou \in [Slots -> BOOLEAN],
+          os \in [Slots -> Int], ol \in [Threads -> 0..MaxLen] :
+          /\ out = [t \in Threads |->
+                      FunAsSeq([i \in Idxs |-> [m |-> [kind |-> mk[<<t, i>>], src |-> ms[<<t, i>>], dst |-> md[<<t, i>>], rec |-> mr[<<t, i>>], old |-> mo[<<t, i>>]],
+                                                 node |-> on[<<t, i>>], inn |-> oi[<<t, i>>], inn2 |-> oj[<<t, i>>],
+                                                 reused |-> ou[<<t, i>>]]], ol[t], MaxLen)]
+          /\ src = [t \in Threads |-> FunAsSeq([i \in Idxs |-> os[<<t, i>>]], ol[t], MaxLen)]
+    /\ OutFacts
 
 (* the constants that stay symbolic in the Apalache runs (--cinit); the carrier sets come from the .cfg files *)
 CInit == NInn0 \in Nat /\ NNode0 \in Nat /\ LockedRead \in BOOLEAN
+
+(* TLC only (InnovParInd_forms.cfg): every program over the carrier sets, consistent or not, no steps *)
+InitAnyProgram == /\ gene \in [GeneNos -> Conns] /\ prog \in [Threads -> [Idxs -> Reqs]] /\ plen \in [Threads -> 0..MaxLen]
+                  /\ reg = <<>> /\ nInn = NInn0 /\ nNode = NNode0 /\ pc = [t \in Threads |-> "done"] /\ idx = [t \in Threads |-> 1]
+                  /\ tmp = [t \in Threads |-> Empty] /\ out = [t \in Threads |-> <<>>] /\ src = [t \in Threads |-> <<>>] /\ accesses = {}
+Stutter == UNCHANGED vars
 =============================================================================
